@@ -20,7 +20,8 @@ RULE = ("states = distinct (salt, declaration order, weight vector) programs com
 
 SALTS = [None, "", "s", "exp-1", "é", "日本", "🎲", "e\u0301", "\u212b\u2126", "\u1100\u1161", "q\u0323\u0307", "S" * 140, "l’été", "“beta”", "„Neu“", "‹x›", "kid's", "pricing-$$", "save%%", "a{{b}}", "fr&quot;x", "exp\\new", "a\\", "\\t", 'say "hi"', "%s", "{0}"]
 # further salts, each with a few declaration orders only: invisible / format characters, doubled template escapes, character references
-SALTS_EXTRA = ["\ufeffa", "a\ufeffb", "a\u200b", "\u00adx", "x\u2060y", "\u200ea\u200f", "a\u061cb", "\ufff9a\ufffb", "a\u2028b", "\u00a0", "a\u3000"]
+SALTS_EXTRA = ["007", "2024", " 42 ", "-5", "+1", "1_000", "１２", "1e3", "0x10", "1.0", "00", "L" * 64 + "a", "L" * 65, "Q" * 1000, "tab\there", "a\\x62c", "eu\\north", "50%", "%d", "tier%%gold",
+               "\ufeffa", "a\ufeffb", "a\u200b", "\u00adx", "x\u2060y", "\u200ea\u200f", "a\u061cb", "\ufff9a\ufffb", "a\u2028b", "\u00a0", "a\u3000"]
 NAMES = ["a", "ab", "b", "ba"]
 # Mixed-case / underscore / digit names.  "Alphabetical order" is taken as code-point order of the
 # field names (what sorted() gives and what every release so far has published): any other order for
@@ -81,6 +82,29 @@ def _work(units):
                         acc.violation({"kind": "scheme:recompile", "sub": "eval", "text": text, "env": enc({"uid": u}), "chain": chain[: chain.index(salt) + 1] if salt in chain else chain,
                                        "why": "after recompiling through near-identical salts the position is not md5(salt + values) of the salt last given: " + why})  # fmt: skip
                         break
+            continue
+        if order == "LIVE":
+            # several evaluators of the SAME experiment name alive at once, each with its own salt / splitters / weights: each
+            # keeps following its own definition (a per-name table shared by all evaluators would hand the first the last one's)
+            from .. import impl, oracle
+            from ..common import enc
+
+            defs = [("prog", "e", s_, sp, ("ret", tuple(wv[wname]))) for s_, sp in (("s1", ("a",)), ("s2", ("a",)), (None, ("b", "a")), ("s1", ("a", "b")), ("", ("a",)))]
+            evs = []
+            for a in defs:
+                b = impl.build(rp.render(a))
+                acc.add("programs")
+                if b[0] == "ok":
+                    evs.append((a, b[1]))
+                for a2, ev2 in evs:  # every evaluator built so far, probed again after each construction
+                    for u in range(12):
+                        env = {"a": u, "b": u + 100}
+                        acc.add("evaluations")
+                        why = oracle.agree(impl.call(ev2, env), oracle.expected(a2, env))
+                        if why:
+                            acc.violation({"kind": "scheme:live", "sub": "eval", "text": rp.render(a2), "env": enc(env),
+                                           "why": f"with {len(evs)} evaluators of the same experiment name alive, this one no longer follows its own definition: " + why})  # fmt: skip
+                            break
             continue
         if order == "COLLIDE":
             # unit ids whose hash KEYS collide under crc32 (and have equal length), evaluated one after the other
@@ -144,7 +168,7 @@ def _deep(units):
 def run(res, tier):
     orders = [p for k in (1, 2, 3) for p in permutations(NAMES, k)] + [p for ns in NAMES2 for p in permutations(ns)] + DUPLICATES
     units = [(s, o, w, tier) for s in SALTS_EXTRA for o in (("a",), ("b", "a"), ("Region", "account_id")) for w in ("eq64", "123")] + \
-        [(s, o, w, tier) for s in SALTS for o in orders for w in weight_vectors()] + [(None, "COLLIDE", w, tier) for w in weight_vectors()] + [(None, "RECOMPILE", "eq64", tier), (None, "RECOMPILE", "123", tier)]
+        [(s, o, w, tier) for s in SALTS for o in orders for w in weight_vectors()] + [(None, "COLLIDE", w, tier) for w in weight_vectors()] + [(None, "RECOMPILE", "eq64", tier), (None, "RECOMPILE", "123", tier), (None, "LIVE", "eq64", tier), (None, "LIVE", "123", tier)]
     for w in pmap(_work, permuted(units, "c12"), chunk=8):
         res.merge_worker(w)
     from .. import deepvals
@@ -190,6 +214,9 @@ def replay(data):
         a = rp.classify(data["text"])[1]
         wname = {64: "eq64", 3: "123", 2: "19", 63: "ramp63"}[len(a[4][1])]
         return replay_in_host(data, "mc.checks.c12", "_work", [[a[2], list(a[3]), wname, "quick"]])
+    if data.get("kind") == "scheme:live":
+        r = _work([(None, "LIVE", "eq64", "quick"), (None, "LIVE", "123", "quick")])
+        return bool(r["viol"]), (r["viol"][0].get("why", "") if r["viol"] else "every live evaluator follows its own definition")
     if data.get("kind") == "scheme:recompile":
         r = _work([(None, "RECOMPILE", "eq64", "quick"), (None, "RECOMPILE", "123", "quick")])
         return bool(r["viol"]), (r["viol"][0].get("why", "recompile raised") if r["viol"] else "the evaluator follows the salt last given")
